@@ -384,6 +384,51 @@ def rgStmts : Stmts → Stmts
   | .exprS e rest => .exprS (rg none e) (rgStmts rest)
 end
 
+/-! ### the tuple size limit (`MAX_STRUCT_SIZE`, source_parser.rs:7; `build_tuple` and
+`parse_parenthesized_expression_list_with_start`) -/
+
+def Args.len : Args → Nat
+  | .one _ => 1
+  | .cons _ rest => rest.len + 1
+
+mutual
+/-- every tuple expression has at most 16 elements. The real parser has two code paths that build a
+tuple (`( lowerId …` through the lambda/tuple cover grammar, anything else through the expression
+list); both report "Maximum allowed tuple size is 16" beyond that, so acceptance depends only on the
+number of elements — which is all the model says. -/
+def sizeOk : Expr → Bool
+  | .atom _ => true
+  | .tuple e es => decide (es.len + 1 ≤ 16) && sizeOk e && sizeOkArgs es
+  | .block b => sizeOkBlk b
+  | .post e _ _ => sizeOk e
+  | .call0 f => sizeOk f
+  | .call f args => sizeOk f && sizeOkArgs args
+  | .unary _ e => sizeOk e
+  | .binary _ l r => sizeOk l && sizeOk r
+  | .ifElse c t e => sizeOk c && sizeOkBlk t && sizeOkBlk e
+  | .matchE m cs => sizeOk m && sizeOkCases cs
+  | .lambda _ b => sizeOk b
+def sizeOkArgs : Args → Bool
+  | .one e => sizeOk e
+  | .cons e rest => sizeOk e && sizeOkArgs rest
+def sizeOkCases : Cases → Bool
+  | .one _ b => sizeOk b
+  | .cons _ b rest => sizeOk b && sizeOkCases rest
+def sizeOkBlk : Blk → Bool
+  | .fin ss e => sizeOkStmts ss && sizeOk e
+  | .noFin ss => sizeOkStmts ss
+def sizeOkStmts : Stmts → Bool
+  | .nil => true
+  | .letS _ e rest => sizeOk e && sizeOkStmts rest
+  | .exprS e rest => sizeOk e && sizeOkStmts rest
+end
+
+/-- the parser with its size check: a parse is accepted iff every tuple is within the limit. -/
+def parseExpr (ts : List Tok) : Option Expr :=
+  match parseE ts with
+  | some e => if sizeOk e then some e else none
+  | none => none
+
 def regroup (e : Expr) : Expr := rg none e
 def graftR (o : BinOp) (acc : Expr) (r : Expr) : Expr := rg (some (o, acc)) r
 
